@@ -77,6 +77,9 @@ impl Fail {
     pub fn new(clause: &str, msg: impl Into<String>) -> Self {
         Fail { clause: clause.to_string(), msg: msg.into(), finding: None }
     }
+    pub fn infra(msg: impl Into<String>) -> Self {
+        Fail { clause: "infra".to_string(), msg: msg.into(), finding: None }
+    }
     pub fn finding(mut self, id: &str) -> Self {
         self.finding = Some(id.to_string());
         self
@@ -124,6 +127,7 @@ pub struct Report {
     pub total_ops: u64,
     pub sub: BTreeMap<String, Value>,
     pub notes: Vec<String>,
+    pub infra: u64,
 }
 
 pub fn hash_json<T: Serialize>(v: &T) -> u64 {
@@ -201,6 +205,7 @@ impl Report {
             "total_ops": self.total_ops,
             "sub": self.sub,
             "notes": self.notes,
+            "infra": self.infra,
             "wall_s": wall_s,
         });
         std::fs::write(&ctx.out, serde_json::to_vec_pretty(&v).unwrap()).unwrap();
@@ -260,6 +265,16 @@ pub fn run_prop<T, S, F>(
                 Ok(())
             }
             Err(f) => {
+                if f.clause == "infra" {
+                    // harness / environment problem (never a verdict): counted, reported as exit 2
+                    if !st.frozen {
+                        st.rep.infra += 1;
+                        if st.rep.notes.len() < 10 {
+                            st.rep.notes.push(format!("{sub}: infra: {}", f.msg));
+                        }
+                    }
+                    return Ok(());
+                }
                 if let Some(id) = &f.finding {
                     if ctx.is_known(id) {
                         if !st.frozen {
